@@ -144,7 +144,27 @@ def node_leg_monitor(item, r):
     return F
 
 
+def replay_l1(tier, seed, replay):
+    """a replay file of the agent-level leg (an L1 history): run it again and state mon_c06 on it"""
+    import l1
+    from props.l1common import run_l1
+    ck = Check("C06", tier, seed)
+    case = json.load(open(replay))["case"]["input"]
+    g_int = [{"op": e.get("k")} for e in case["events"]]
+    try:
+        ob = run_l1(build_harness(), [case], workers=1, tag="c06replay")[0]
+    except HarnessError as e:
+        ck.tie("harness builds and runs against the current tree", False, str(e)[-1500:])
+        return ck.finish()
+    ck.evaluations += 1
+    for sig, msg, i in l1.mon_c06(case, g_int, ob)[:1]:
+        ck.fail("agent:" + sig, msg, {"input": case, "event": i})
+    return ck.finish()
+
+
 def run(tier, seed, replay=None):
+    if replay is not None and "events" in (json.load(open(replay)).get("case", {}).get("input") or {}):
+        return replay_l1(tier, seed, replay)
     ck = Check("C06", tier, seed)
     ck.trusted = COMMON_TRUSTED + ["harness/go/verif_c06_test.go (direct calls to NewIPPool/LookupOrAllocIP/DeallocIP; reads freePool and inventory)",
                                    "net.ParseCIDR is outside the model: the model takes the masked base and the prefix length"]
